@@ -98,6 +98,7 @@ _cache = {}
 # different tables are what exposes state keyed on the identity of a model (id() reuse after
 # garbage collection) or shared between all models (class attributes, module-level caches).
 CHURN = 2
+AMR_SOURCE = ['not loaded']
 _lookups = [0]
 
 
@@ -134,7 +135,15 @@ def _get(name):
         e = (name, m, RefModel(name=name), None)
     elif name == 'amr':
         m = _amr.model
-        e = (name, m, RefModel(roles=list(_amr.roles), normalizations=_amr.normalizations,
+        # role inventory and normalisations as documented (docs/api/penman.models.amr.rst), not as
+        # tabulated in penman/models/amr.py; the reification table is taken from the library (the
+        # documented one differs from it in four rows, O15, and C11/C12 quantify over the table)
+        from pmon import core
+        from pmon.ref import amr_doc
+        doc = amr_doc.load(core.REPO)
+        AMR_SOURCE[0] = 'documentation' if doc else 'library table (documentation page not found)'
+        e = (name, m, RefModel(roles=list(doc['roles']) if doc else list(_amr.roles),
+                               normalizations=doc['normalizations'] if doc else _amr.normalizations,
                                reifications=_amr.reifications, name=name), None)
     elif name == 'noop':
         m = _noop.model
